@@ -190,7 +190,7 @@ def correspond(ctx, exe, n_specs, files=True):
             if i != '11':
                 ctx.disagreement('model-write-read-cycles', {'spec': spec}, 'second file = first up to trailing blanks, third = second: %s' % i, 'expected 11')
         ctx.corr_cases('model-write-read-cycles', len(hlines))
-        ctx.hyp_met['t2data_read_write_partial'] = dict(objects=len(hlines), **{k: met[k] for k in names + ['covered-but-not-met']})
+        ctx.hyp_met['t2data_read_write'] = dict(objects=len(hlines), **{k: met[k] for k in names + ['covered-but-not-met']})
     finally:
         shutil.rmtree(tmp, ignore_errors=True)
 
